@@ -187,8 +187,22 @@ func H_Matrix() {
 	s.NReg[10], s.NReg[11] = 0, 1
 	a, b, c, d, e, f := vp.F32("a"), vp.F32("b"), vp.F32("c"), vp.F32("d"), vp.F32("e"), vp.F32("f")
 	s.NReg[4], s.NReg[5], s.NReg[6], s.NReg[7], s.NReg[8], s.NReg[9] = a, b, c, d, e, f
-	z.SetRasterizer(&ras, s.R)
-	z.VPSet(&s)
+	if vp.Choice("prior", 2) == 1 {
+		// the same gradient was painted before on a raster of another size and the
+		// Renderer was then pointed at this one (no Reset in between): the matrix
+		// must be the one of the current raster
+		s0 := s
+		s0.R = image.Rect(0, 0, 16, 16)
+		z.SetRasterizer(&ras, s0.R)
+		z.VPSet(&s0)
+		z.StartPath(0, 0, 0)
+		z.AbsLineTo(1, 1)
+		z.ClosePathEndPath()
+		z.SetRasterizer(&ras, s.R)
+	} else {
+		z.SetRasterizer(&ras, s.R)
+		z.VPSet(&s)
+	}
 	z.StartPath(0, 0, 0)
 	kind, _, g := z.VPFill()
 	vp.Assert(kind == 2, "the paint is a gradient")
